@@ -486,6 +486,23 @@ def f10(tier):
     # deadvar: unused variable whose initialiser has a side effect
     C.append(base + [('fn', 'loud', [('v', 'I')], 'I', [P(B('+', V('v'), L(800))), ('value', V('v'))]), ('decl', 'u', 'I', ('call', 'loud', [L(1)])),
                      ('decl', 'w', 'I', ('call', 'loud', [L(2)])), P(V('w'))])
+    # deadvar: a never-read variable assigned several times, calls with an effect first and a pure value last (and the other
+    # orders); a function with early exits whose last value is a call with an effect, called for that effect only
+    loud = ('fn', 'loud', [('v', 'I')], 'I', [P(B('+', V('v'), L(800))), ('value', V('v'))])
+    for seq in itertools.product(['call', 'pure', 'zero'], repeat=3):      # 'zero': the literal 0, which the pass treats as a mere initialisation
+        if 'call' not in seq:
+            continue
+        val = lambda j, kd: ('call', 'loud', [L(j + 1)]) if kd == 'call' else (L(0) if kd == 'zero' else L(40 + j))
+        # the variable lives in a function of its own whose body is just the assignments (first one is the declaration),
+        # or in the case body followed by more statements
+        dv = ('fn', 'dv', [], 'I', [('decl', 'u', 'I', val(0, seq[0]))] + [('assign', 'u', val(j, seq[j])) for j in (1, 2)] + [('value', L(0))])
+        C.append(base + [loud, dv, ('expr', ('call', 'dv', [])), P(L(5))])
+        C.append(base + [loud, ('decl', 'u', 'I', val(0, seq[0]))] + [('assign', 'u', val(j, seq[j])) for j in (1, 2)] + [P(L(5))])
+    for early in (0, 3):
+        work = ('fn', 'work', [('k', 'I')], 'I', [('exit', B('<=', V('k'), L(0)), L(0)), P(B('+', V('k'), L(600))), ('value', ('call', 'loud', [V('k')]))])
+        C.append(base + [loud, work, ('expr', ('call', 'work', [O(early)])), ('expr', ('call', 'work', [L(early)])), P(L(6))])
+        work2 = ('fn', 'work', [('k', 'I')], 'I', [('exit', B('>', V('k'), L(0)), ('call', 'loud', [V('k')])), ('value', L(0))])
+        C.append(base + [loud, work2, ('expr', ('call', 'work', [O(early)])), P(L(7))])
     # peep: identity / absorbing element with an operand that prints
     loud = ('fn', 'loud', [('v', 'I')], 'I', [P(B('+', V('v'), L(800))), ('value', V('v'))])
     LD = lambda v: ('call', 'loud', [L(v)])
